@@ -115,6 +115,8 @@ type Interp struct {
 	sampled int
 	dumpN   int
 	qcache  map[string]Result
+	reProgs map[string]*reProg
+	reSteps int64
 	pendingModel Model
 	fallbackSat  bool
 	// write monitor
